@@ -753,3 +753,28 @@ def fresh_value(fnode, st, loop):
             return True, 'constructed in the same iteration'
         return False, f'`{v.id}` is bound outside the loop iteration (or not to a new object): one object would be shared'
     return False, 'value is not a newly constructed container'
+
+
+def record_block_requests(ctx, rec, Ir, rule='FORMULA'):
+    """record(): the block requests are made in a block loop nested in a file loop; the file loop runs
+    ceil(num_blocks / blocks_per_file) times and file i holds blocks_per_file blocks except a final remainder, so
+    exactly num_blocks blocks are requested (and written).  Located structurally through the collect_data_block call."""
+    cdb = [e for e in Ir.events if e.kind == 'call' and e.data.get('name') == B + '.collect_data_block']
+    ctx.require(cdb, 'record() no longer calls collect_data_block')
+    e = cdb[0]
+    if len(e.loops) < 2 or 'trip' not in e.loops[-1] or 'trip' not in e.loops[-2]:
+        ctx.ob(rule, 'blocks are requested in a block loop nested in a file loop', rec, False,
+               {'loops': [pretty(l.get('iter', T.NONE)) for l in e.loops]}, node=e.node, construct='collect_data_block loops')
+        return
+    fl, bl = e.loops[-2], e.loops[-1]
+    J = ctx.interp()
+    J.heap = dict(Ir.heap)
+    nf = ctx.spec(rec, 'int(np.ceil(self.num_blocks / self.blocks_per_file))', I=J)
+    ctx.formula(rule, 'number of files == ceil(num_blocks / blocks_per_file)', rec, fl['trip'], nf, node=fl['node'],
+                construct='file loop trip count')
+    J2 = ctx.interp()
+    J2.heap = dict(Ir.heap)
+    spec = ctx.spec(rec, 'ITE(FI == NF - 1 and self.num_blocks % self.blocks_per_file != 0, '
+                         'self.num_blocks % self.blocks_per_file, self.blocks_per_file)', env={'FI': fl['index'], 'NF': nf}, I=J2)
+    ctx.formula(rule, 'blocks requested for file i == remainder in the last file, else blocks_per_file (num_blocks in total)', rec,
+                bl['trip'], spec, node=bl['node'], construct='block loop trip count')
